@@ -7,6 +7,11 @@ the seam is the one the tools use.
 
 Space (every part is a complete enumeration; nothing is sampled):
 
+ K. attribute sweep (finite table, swept completely in both tiers) - every attribute byte
+    0..255 on a cell that shows INK and PAPER pixels, x scale {1,2} x PNGEnableAnimation
+    {1,0} x {no crop, unaligned crop} x {unmasked, OR-AND masked, AND-OR masked}: alone,
+    next to the cell whose attribute differs only in BRIGHT, only in FLASH, or in both
+    (shared palette), and all 256 together in 16x16 arrays (4-bit paths).
  A. geometry sweep - for each base tile array (quick: 4 of the 12 BASES, rotated by the
     seed; thorough: all 12): FULL PRODUCT scale 1..8 x mask type 0..2 x crop x in X(scale)
     x crop y in X(scale) x width in W x height in W, where X(s) = {0,1,7,8,9,8s-1,8s,8s+1}
@@ -59,7 +64,7 @@ ENCODERS = ('bd0', 'bd1_nt', 'bd1_at', 'bd2_nt', 'bd2_at', 'bd4_nt', 'bd_any')
 REQUIRED_GUARDS = ['enc_' + e for e in ENCODERS] + [
     'generic_forced', 'flash_frame', 'flash_cropped', 'flash_suppressed_ink_eq_paper', 'multi_frame', 'trns_chunk',
     'tindex_applied', 'tindex_blocked_by_mask', 'mask_transparency', 'cropped_unaligned', 'bd4_masked_generic',
-    'shared_udg_objects', 'tool_sna2img', 'tool_skool2html']
+    'shared_udg_objects', 'tool_sna2img', 'tool_skool2html', 'attr_sweep_cell', 'attr_sweep_pair', 'attr_sweep_table']
 
 DEFAULTS = dict(shape=(2, 1), attr0=0, spread=1, gfx=('cycle', 0), masks=('none', 0), flip=0, rotate=0,
                 tindex='none', alpha=(-1, 255), anim=1, frame2=None, shared=0)
@@ -567,7 +572,7 @@ FONT_TEXT = '!$+'
 
 
 def _scr_mem():
-    """A fixed 6912-byte screen: display file by formula, attributes cycling through ATTRS."""
+    """A fixed 6912-byte screen: display file by formula, attributes running through all 256 byte values."""
     mem = {}
     for a in range(6144):
         v = (a * 37 + 11) & 255
@@ -575,7 +580,7 @@ def _scr_mem():
             v = 0 if a & 1 else 255
         mem[16384 + a] = v
     for i in range(768):
-        mem[22528 + i] = ATTRS[(i * 7 + i // 32) % len(ATTRS)]
+        mem[22528 + i] = (i * 7 + i // 32) & 255            # every attribute byte occurs (thrice)
     return mem
 
 
@@ -988,8 +993,71 @@ def base_indices(tier, seed):
     return list(range(len(BASES)))
 
 
+# ---- K: complete attribute-byte sweep
+# graphic rows with INK and PAPER pixels in every row pair, asymmetric; mask rows that give
+# ink, paper and transparent pixels under both mask types
+K_DATA = (0x0F, 0xA5, 0x81, 0xF0, 0x33, 0xFF, 0x00, 0x5A)
+K_MASK = (0xF0, 0xF0, 0xFF, 0x0F, 0x55, 0x3C, 0x81, 0xA5)
+K_MASKS = ((0, False), (1, True), (2, True))          # (mask type, tiles carry mask bytes)
+K_PARTS = ('cell', 'pair40', 'pair80', 'pairC0', 'table')
+
+
+def _k_tile(attr, i, masked):
+    data = K_DATA[i % 8:] + K_DATA[:i % 8]
+    mask = (K_MASK[i % 8:] + K_MASK[:i % 8]) if masked else None
+    return (attr, data, mask)
+
+
+def _k_case(tiles, scale, mask, crop, anim):
+    return dict(kind='seam', png_alpha=255, animation=anim, frames=[dict(
+        tiles=tiles, shared=0, flip=0, rotate=0, scale=scale, mask=mask, crop=crop, delay=32, tindex=0, alpha=-1, xo=0, yo=0)])
+
+
+def attr_cases(part, mvar):
+    """Every attribute byte 0..255, each x scale {1,2} x PNGEnableAnimation {1,0} x
+    {no crop, unaligned crop}, for the mask variant K_MASKS[mvar]:
+      cell    one cell showing INK and PAPER (and transparent) pixels;
+      pairXX  two neighbouring cells whose attributes differ exactly in the bits XX
+              (BRIGHT, FLASH, both): the palette is shared between the two;
+      table   all 256 attributes in one 16x16 array (4-bit paths), in four row orders so
+              that every attribute also appears in the first and in the last row/column."""
+    mtype, masked = K_MASKS[mvar]
+    if part == 'table':
+        for order in range(4):
+            rows = []
+            for j in range(16):
+                row = []
+                for c in range(16):
+                    i = 16 * j + c
+                    a = (i, 255 - i, (i * 16 + i // 16) & 255, (i * 7 + 3) & 255)[order]
+                    row.append(_k_tile(a, i, masked))
+                rows.append(tuple(row))
+            tiles = tuple(rows)
+            for scale in (1, 2):
+                for anim in (1, 0):
+                    for crop in ((0, 0, None, None), (3, 5, 128 * scale - 7, 128 * scale - 6)):
+                        yield 'K/table{}/m{}/s{}/anim{}/{}'.format(order, mtype, scale, anim, _crop_id(crop)), \
+                            _k_case(tiles, scale, mtype, crop, anim)
+        return
+    toggle = 0 if part == 'cell' else int(part[4:], 16)
+    for attr in range(256):
+        if toggle:
+            tiles = ((_k_tile(attr, 0, masked), _k_tile(attr ^ toggle, 3, masked)),)
+        else:
+            tiles = ((_k_tile(attr, 0, masked),),)
+        for scale in (1, 2):
+            for anim in (1, 0):
+                for crop in ((0, 0, None, None), (1, 1, None, None)):
+                    yield 'K/{}/attr{:02X}/m{}/s{}/anim{}/{}'.format(part, attr, mtype, scale, anim, _crop_id(crop)), \
+                        _k_case(tiles, scale, mtype, crop, anim)
+
+
 def units(tier, seed):
     """The whole space as an ordered stream of work units (simplest first)."""
+    # K: the attribute byte is a finite table - all 256 values are swept completely
+    for part in K_PARTS:
+        for mvar in range(len(K_MASKS)):
+            yield ('K', part, mvar)
     for _, cfg in core.deviations(DEFAULTS, alternatives(tier), depth(tier)):
         yield ('B', cfg)
     for b in base_indices(tier, seed):
@@ -1037,6 +1105,9 @@ def unit_cases(unit):
             case = make_case(cfg, scale, mask, crop, tiles)
             if case is not None:
                 yield 'A/base{}/s{}/m{}/{}'.format(b, scale, mask, _crop_id(crop)), case
+    elif unit[0] == 'K':
+        for item in attr_cases(unit[1], unit[2]):
+            yield item
     elif unit[0] == 'F':
         _, flip, rotate = unit
         cfg = dict(DEFAULTS, shape=(8, 4), flip=flip, rotate=rotate)
@@ -1111,6 +1182,8 @@ def _shard(shard, nshards, tier, seed):
             batch = run_skool2html([c for _, c in cases], stats)
         for ci, (case_id, case) in enumerate(cases):
             stats.evaluations += 1
+            if unit[0] == 'K':
+                stats.counters['attr_sweep_' + ('table' if unit[1] == 'table' else 'cell' if unit[1] == 'cell' else 'pair')] += 1
             if batch is not None and batch[ci][1] is None:
                 errors = check_skool2html(case, cx, stats, batch[ci][0])
             else:
@@ -1143,7 +1216,7 @@ def run(tier, seed):
              'that use a specialised encoder, transparency, animation or a flip/rotate (keyed by encoder, depth, palette, crop '
              'alignment, transform, mask type, scale)',
         exhaustive=True,
-        bound='B: all {} content configurations within {} deviations of the default (dimensions: {}), each x scale 1..8 x mask type '
+        bound='K: all 256 attribute bytes x {{cell, BRIGHT pair, FLASH pair, BRIGHT+FLASH pair, 16x16 table in 4 orders}} x scale {{1,2}} x animation {{1,0}} x 2 crops x 3 mask variants; B: all {} content configurations within {} deviations of the default (dimensions: {}), each x scale 1..8 x mask type '
               '0..2 x {} crop rectangles (full product); A: bases {} x FULL PRODUCT scale 1..8 x mask 0..2 x crop x,y in '
               '{{0,1,7,8,9,8s-1,8s,8s+1}} x width,height in {{default,1,2,7,8,9,full-1}}; T: {} sna2img.main runs; H: {} images in '
               'skool2html runs (d<=1 contents)'.format(
@@ -1170,7 +1243,7 @@ ASSUMPTIONS = [
     'later frames are ignored (documented); tindex within 0-15, alpha within -1..255',
     'a flash rectangle larger than the visible flashing cells is not a violation (the frame is still confined to the reported '
     'rectangle and pixel-exact); it is counted in guards as info_flash_rect_larger_than_visible_flashing_cells',
-    'attribute alphabet = the design alphabet plus 0x0A, 0x65, 0xD3 (needed to obtain more than four colours) and 0x92 (FLASH with ink = paper); the quick tier uses 7 of the 9 graphic schemes and 5 of the 7 mask schemes',
+    'in the deviation and geometry sweeps (A, B) the attribute alphabet = the design alphabet plus 0x0A, 0x65, 0xD3 (needed to obtain more than four colours) and 0x92 (FLASH with ink = paper); the quick tier uses 7 of the 9 graphic schemes and 5 of the 7 mask schemes',
     'default colours only ([Colours] overrides are not enumerated); PNGCompressionLevel left at its default',
     'frame delays are checked as exact fractions delay/100 s; num_plays and the disposal/blend operations are only required to '
     'be valid and to show the frame pixels as given',
